@@ -104,6 +104,7 @@ type model struct {
 	attached  map[int]*exec // subscriber → execution it is attached to
 	subCount  int           // source subscriptions so far
 	connected bool          // connectable: connection open
+	armed     *int          // the next source subscription emits this value and completes inside its subscribe function
 }
 
 func newModel(cfg config) *model {
@@ -132,7 +133,19 @@ func (m *model) sub(id int) {
 	if created {
 		m.subCount++
 		m.cur.live = true
+		m.playArmed()
 	}
+}
+
+// playArmed: the source plays "value, completion" inside the subscribe function of the subscription just made.
+func (m *model) playArmed() {
+	if m.armed == nil {
+		return
+	}
+	v := *m.armed
+	m.armed = nil
+	m.srcNext(v)
+	m.srcTerminal(false)
 }
 
 func (m *model) unsub(id int) {
@@ -201,6 +214,7 @@ func (m *model) connect() {
 	m.connected = true
 	m.subCount++
 	m.cur.live = true
+	m.playArmed()
 }
 
 func (m *model) disconnect() {
@@ -284,6 +298,14 @@ func (s *sut) apply(op string) {
 		} else if op == "N" {
 			s.val++ // keep the value numbering aligned with the model
 		}
+	case op == "A":
+		// arm: the next subscription of the source gets "value, completion" inside the subscribe function;
+		// the ones after it are puppets again
+		s.val++
+		n := int(s.source.Subscribed.Load())
+		scripts := make([]src.Script, n+2)
+		scripts[n] = src.Script{{K: rec.Next, V: s.val}, {K: rec.Complete}}
+		s.source.Scripts = scripts
 	case op == "K":
 		s.connSub = s.conn.Connect()
 	case op == "D":
@@ -309,6 +331,10 @@ func applyModel(m *model, op string, val *int, nsubs *int) {
 		m.srcTerminal(true)
 	case op == "C":
 		m.srcTerminal(false)
+	case op == "A":
+		*val++
+		v := *val
+		m.armed = &v
 	case op == "K":
 		m.connect()
 	case op == "D":
@@ -344,6 +370,11 @@ func plan(tier string, seed int64) []driver.Case {
 		}
 		for _, a := range ops {
 			cases = append(cases, driver.Case{ID: fmt.Sprintf("seq/%s/%s", cfg, a), P: map[string]string{"kind": "seq", "cfg": cfg.key(), "prefix": a, "len": fmt.Sprint(maxLen)}})
+		}
+		// the same with a source that can be armed (A) to emit one value and complete INSIDE the subscribe
+		// function of its next subscription: the execution is over before Subscribe / Connect returns
+		for _, a := range append(append([]string{}, ops...), "A") {
+			cases = append(cases, driver.Case{ID: fmt.Sprintf("seq-armed/%s/%s", cfg, a), P: map[string]string{"kind": "seq", "armed": "1", "cfg": cfg.key(), "prefix": a, "len": fmt.Sprint(maxLen - 1)}})
 		}
 	}
 	rng := rand.New(rand.NewSource(seed))
@@ -450,9 +481,16 @@ func runSeq(c driver.Case) driver.Result {
 	if strings.HasPrefix(cfg.Form, "connectable") {
 		ops = connOps
 	}
+	armed := c.Get("armed") == "1"
+	if armed {
+		ops = append(append([]string{}, ops...), "A")
+	}
 	res := driver.Result{Verdict: driver.Held}
 	var sequences int64
 	check := func(seq []string) *driver.Result {
+		if armed && !strings.Contains(strings.Join(seq, ""), "A") {
+			return nil // covered by the unarmed cases
+		}
 		s := newSUT(cfg)
 		m := newModel(cfg)
 		val, nsubs := 0, 0
